@@ -52,7 +52,8 @@ class P(Prop):
             "eps(1+2^-52), 2eps, 2.5eps} (incl. at offset 1.0), large offsets, knots repeated verbatim (x and y); bit-exact model vs crate (sign of a zero produced by "
             "f64::max of two zeros ignored); exact-rational oracle: count, ends = running maximum, every segment through its "
             "forced left knot, through the right knot when >= eps wide, constant otherwise. non-trivial = >= 3 knots and not "
-            "strictly increasing with big gaps; distinct by input")
+            "strictly increasing with big gaps; distinct by input"
+            " Also: prefix pairs of tables in consecutive calls; linear_eval: the interpolant evaluated by the crate at and between knots, ordinates up to 8e307 of opposite signs.")
     TRUSTED = ["translator rs2coq", "skeleton PwModel.linear (fold carrying prev_knot) tied by correspondence",
                "f64::max modelled as: NaN-aware, returns the first operand on ties"]
     ASSUMPTIONS = ["IEEE-754 arithmetic"]
@@ -73,6 +74,29 @@ class P(Prop):
             dy = rng.choice([1e-300, 2.0 ** -1000, 3e-305])
             ks = [[C.bits(x0), C.bits(0.0)], [C.bits(x0 + gap), C.bits(dy)], [C.bits(x0 + 3 * gap), C.bits(-dy)]]
             out.append(dict(op="linear", knots=ks, meta={"class": "linear/subnormal_slope"}))
+        # the same table again with knots appended / dropped, one call right after the other (no state may survive a call)
+        for _ in range(5 if tier == "quick" else 50):
+            style, ks = knots(rng, rng.randint(4, 9))
+            out.append(dict(op="linear", knots=ks, meta={"class": "linear/prefix_pair"}))
+            out.append(dict(op="linear", knots=ks[:rng.randint(2, len(ks) - 1)], meta={"class": "linear/prefix_pair"}))
+            out.append(dict(op="linear", knots=ks + [[C.bits(C.fl(ks[-1][0]) + 1.0), C.bits(2.0)]], meta={"class": "linear/prefix_pair"}))
+        # ordinates near the top of the binary64 range of opposite signs, small abscissae: slope * x exceeds the range although every
+        # value of the interpolant between the knots is an ordinary finite number (evaluated through the crate, at and between knots)
+        for _ in range(6 if tier == "quick" else 60):
+            x0 = rng.choice([1.0, 0.5, 0.75])
+            x1 = x0 + rng.choice([2.0, 3.0])
+            a, b = rng.uniform(3e307, 8e307), rng.uniform(3e307, 8e307)
+            sgn = rng.choice([1.0, -1.0])
+            ks = [[C.bits(x0), C.bits(-sgn * a)], [C.bits(x1), C.bits(sgn * b)]]
+            xs = [x0, x1, 0.5 * (x0 + x1), x0 + 0.25 * (x1 - x0), x1 - 0.125 * (x1 - x0)]
+            out.append(dict(op="linear_eval", knots=ks, xs=[C.bits(x) for x in xs], meta={"class": "linear_eval/huge_ordinates"}))
+        for _ in range(6 if tier == "quick" else 60):
+            style, ks = knots(rng, rng.randint(2, 6))
+            if style.split("+")[0] != "inc":
+                continue
+            xsf = [C.fl(k_[0]) for k_ in ks]
+            xs = list(xsf) + [0.5 * (p_ + q_) for p_, q_ in zip(xsf, xsf[1:])]
+            out.append(dict(op="linear_eval", knots=ks, xs=[C.bits(x) for x in xs], meta={"class": "linear_eval/ordinary"}))
         for nk in (0, 1):
             style, ks = knots(rng, max(nk, 1))
             out.append(dict(op="linear", knots=ks[:nk], meta={"class": "linear/rejected"}))
@@ -90,6 +114,8 @@ class P(Prop):
     def coq_term(self, case, h):
         if case["op"] == "k":
             return K.kernel_term(case, h)
+        if case["op"] == "linear_eval":
+            return None
         return "run_linear [] [] %s %s" % (C.kname("linear::incr_linear"), C.zlistlist(case["knots"]))
 
     def compare(self, case, hres, mres):
@@ -101,6 +127,24 @@ class P(Prop):
         return Prop.compare(self, case, hres, mres)
 
     def oracle(self, case, h):
+        if case["op"] == "linear_eval":
+            if h["r"] == "PANIC":
+                return "linear / evaluation panicked on finite knots: %s" % h.get("msg")
+            ks = [(fr(k_[0]), fr(k_[1])) for k_ in case["knots"]]
+            if any(q_[0] - p_[0] < Fraction(1, 2 ** 40) for p_, q_ in zip(ks, ks[1:])):
+                return None
+            for xb, rb in zip(case["xs"], h["r"]):
+                x = fr(xb)
+                seg = next(((p_, q_) for p_, q_ in zip(ks, ks[1:]) if p_[0] <= x <= q_[0]), None)
+                if seg is None:
+                    continue
+                (x0, y0), (x1, y1) = seg
+                exp = y0 + (y1 - y0) * (x - x0) / (x1 - x0)
+                tol = 64 * U * (abs(y0) + abs(y1)) * (1 + (abs(x0) + abs(x1)) / (x1 - x0)) + Fraction(1, 2 ** 1000)
+                if not finite(rb) or abs(fr(rb) - exp) > tol:
+                    return "linear(knots).evaluate(%r) = %r; the straight line between the knots (%r, %r) and (%r, %r) is %r there" % (
+                        float(x), C.fl(rb), float(x0), float(y0), float(x1), float(y1), float(exp))
+            return None
         if case["op"] != "linear":
             return None
         ks = case["knots"]
@@ -148,6 +192,8 @@ class P(Prop):
         return None
 
     def nontrivial_key(self, case, h):
+        if case["op"] == "linear_eval":
+            return None
         if case["op"] == "linear" and (len(case["knots"]) < 3 or case["meta"]["class"].endswith("/inc")):
             return None
         return super().nontrivial_key(case, h)
